@@ -53,6 +53,12 @@ CHECKS["C05"] = dict(engine="tlc+codecdrive",
    text="Every byte string up to length 2 (quick) / 3 (thorough) over a 48-symbol alphabet (heads of all wire types at tags 0/1/15 + length bytes) x 4 struct types, random strings over it, mutants of valid encodings of all struct types with hostile lengths and substituted wire types, random bytes, and nesting patterns scaled to 200 k (quick) / 10 M (thorough) levels are decoded by the real ReadFrom / tup.Decode in a worker process; TLC judges ok/err class and the allocation bound, the harness records panic / fatal error / hang.",
    design_ref="5/C05", note=CODEC_NOTE + " Network receive paths (TCP/UDP server, client) are exercised by the C10/C07 harnesses; see DESIGN.md.")
 
+CHECKS["C20"] = dict(engine="tlc+vdrive",
+   technique="TLA+ spec LogFlush.tla (queue, flusher's two selects with Go select semantics, flush handshake) model-checked by TLC; trace validation (Trace_LogFlush) of runs of the real logger, including schedules forced through the window with a gate hook between the selects",
+   category="model_checking",
+   text="TLC checks FlushComplete/OnceEach/OrderPerGoroutine and flush termination exhaustively for 2 goroutines x 2 entries (and confirms that the loop without the drain violates FlushComplete, so the property is not vacuous). The harness holds the real flusher between its two selects with a blocking hook, logs entries, requests the flush and releases it; together with free-running multi-goroutine scenarios every recorded event trace must be a behaviour of the spec with the invariants holding at every step.",
+   design_ref="5/C20", note="Trusted: Go select semantics as modelled; the recorder's lock order; hook rogger.flush.between (self-tested every run). Flush timeout raised to 10 s so that only the handshake ends FlushLogger.")
+
 PENDING = {}
 
 def main():
